@@ -15,14 +15,14 @@ HASHMAP_REMOVE = {'std::collections::HashMap::remove', 'std::collections::HashMa
 HASHMAP_INSERT = {'std::collections::HashMap::insert', 'std::collections::HashMap::entry'}
 DASHMAP_REMOVE = {'dashmap::DashMap::remove', 'dashmap::DashMap::remove_if', 'dashmap::DashMap::remove_if_mut', 'dashmap::DashMap::clear',
                   'dashmap::DashMap::retain', 'dashmap::mapref::entry::OccupiedEntry::remove',
-                  'dashmap::mapref::entry::OccupiedEntry::remove_entry'}
-DASHMAP_INSERT = {'dashmap::DashMap::entry', 'dashmap::DashMap::insert', 'dashmap::mapref::entry::Entry::or_insert_with',
-                  'dashmap::mapref::entry::Entry::or_insert', 'dashmap::mapref::entry::Entry::insert',
-                  'dashmap::mapref::entry::VacantEntry::insert', 'dashmap::mapref::entry::Entry::or_default',
-                  'dashmap::mapref::entry::Entry::or_try_insert_with', 'dashmap::mapref::entry::Entry::insert_entry'}
-DASHMAP_MUT = DASHMAP_REMOVE | DASHMAP_INSERT | {'dashmap::DashMap::alter', 'dashmap::DashMap::alter_all', 'dashmap::DashMap::get_mut',
-                                                  'dashmap::mapref::entry::Entry::and_modify', 'dashmap::DashMap::iter_mut',
-                                                  'dashmap::DashMap::shrink_to_fit'}
+                  'dashmap::mapref::entry::OccupiedEntry::remove_entry', 'dashmap::OccupiedEntry::remove', 'dashmap::OccupiedEntry::remove_entry'}
+_ENTRY_INS = ('Entry::or_insert_with', 'Entry::or_insert', 'Entry::insert', 'VacantEntry::insert', 'Entry::or_default', 'Entry::or_try_insert_with',
+              'Entry::insert_entry', 'OccupiedEntry::insert', 'VacantEntry::insert_entry')
+_ENTRY_MUT = ('Entry::and_modify', 'OccupiedEntry::get_mut', 'OccupiedEntry::into_ref', 'OccupiedEntry::replace_entry')
+# dashmap's entry types are named through the crate-root re-export (`dashmap::Entry`) or by their defining module
+DASHMAP_INSERT = {'dashmap::DashMap::entry', 'dashmap::DashMap::insert'} | {pre + x for x in _ENTRY_INS for pre in ('dashmap::', 'dashmap::mapref::entry::')}
+DASHMAP_MUT = DASHMAP_REMOVE | DASHMAP_INSERT | {'dashmap::DashMap::alter', 'dashmap::DashMap::alter_all', 'dashmap::DashMap::get_mut', 'dashmap::DashMap::iter_mut',
+                                                  'dashmap::DashMap::shrink_to_fit'} | {pre + x for x in _ENTRY_MUT for pre in ('dashmap::', 'dashmap::mapref::entry::')}
 CLOCK_READS = {'std::time::Instant::now'}
 CHAN_SEND = {'crossbeam_channel::Sender::try_send', 'crossbeam_channel::Sender::send', 'crossbeam_channel::Sender::send_timeout'}
 
